@@ -218,20 +218,36 @@ func (d *simDriver) run(in Input) (obs Obs) {
 		}
 	}
 	waitQuiet(rec)
-	obs.Recs = mergeTriggers(rec.Records())
+	obs.Recs = mergeTriggers(rec.Records(), in.Hooks)
 	d.cap.setEnv("")
 	return
 }
 
 // mergeTriggers: the core sends one trigger command per executor; the hook tasks of one weight are
-// triggered by consecutive commands (the generator puts a call in front of every task hook, so
-// the commands of two weights are never adjacent): they are one "hook tasks triggered" record.
-func mergeTriggers(recs []Rec) []Rec {
+// triggered by consecutive commands (the generator puts a DESTROY / after_DESTROY call in front of
+// every task hook, so the commands of two weights are always separated by the record of such a
+// call): they are one "hook tasks triggered" record.  Start / end records of other calls (still
+// running from an earlier point) may fall in between and do not separate.
+func mergeTriggers(recs []Rec, hooks []Hook) []Rec {
+	destroyCall := map[int]bool{}
+	for _, h := range hooks {
+		if h.Kind == "call" && (strings.HasPrefix(h.Trig, "DESTROY") || strings.HasPrefix(h.Trig, "after_DESTROY")) {
+			destroyCall[h.Id] = true
+		}
+	}
 	var out []Rec
+	lastT := -1
 	for _, r := range recs {
-		if n := len(out); r.Kind == "T" && n > 0 && out[n-1].Kind == "T" && out[n-1].Op == r.Op {
-			out[n-1].Tasks = append(append([]int(nil), out[n-1].Tasks...), r.Tasks...)
+		switch {
+		case r.Kind == "T" && lastT >= 0 && out[lastT].Op == r.Op:
+			out[lastT].Tasks = append(append([]int(nil), out[lastT].Tasks...), r.Tasks...)
 			continue
+		case r.Kind == "T":
+			lastT = len(out)
+		case (r.Kind == "S" || r.Kind == "E") && !destroyCall[r.Hook]:
+			// does not separate
+		default:
+			lastT = -1
 		}
 		out = append(out, r)
 	}
